@@ -27,9 +27,11 @@ from pathlib import Path
 
 sys.path.insert(0, str(Path(__file__).resolve().parent))
 import common as C
+import c14lib as L
 
 PID = "C14"
-TARGETS = ["Dist/NumF.vo", "Dist/Frame.vo", "Dist/Support.vo", "Dist/Ctor.vo", "Dist/Refuted.vo", "Props/C14.vo"]
+# built in coq/ (independent of the source text); Gen_Dist / GenAgree / Props are compiled per tree (c14lib.DistTree)
+TARGETS = ["Dist/NumF.vo", "Dist/Frame.vo", "Dist/Support.vo", "Dist/Ctor.vo", "Dist/Refuted.vo", "Dist/Density.vo"]
 IMPL = Path(__file__).resolve().parent / "c14_impl.py"
 
 EPS1 = 1.0 - 2.0 ** -53          # largest double below 1
@@ -1032,7 +1034,13 @@ def main(tier: str) -> int:
         ek = ek if isinstance(ek, list) else ek.get("findings", [])
         have = {k.get("signature") for k in run._known}
         run._known += [k for k in ek if k.get("property") == PID and k.get("signature") not in have]
-    proofs_ok = run.check_proofs(TARGETS, extra_tb=[
+    try:
+        tree = L.DistTree().prepare()
+    except Exception as exc:  # noqa
+        run.violation("translated-model-not-buildable", f"the model could not be regenerated from the source: {type(exc).__name__}: {exc}",
+                      {"unchecked": "coq/Dist/GenAgree.v"}, found_input=False)
+        return run.finish()
+    proofs_ok = L.check_proofs(run, tree, TARGETS, extra_tb=[
         "libm (log, exp, pow, erf) and the ** operator are oracle tables recorded from CPython in the same run; "
         "the PrimFloat model is exact only relative to them",
         "purity / isolation / re-pointing theorems hold for every number structure (closed under the global context); "
@@ -1134,7 +1142,8 @@ def main(tier: str) -> int:
     if os.environ.get("C14_DEBUG"):
         for i in sorted(mism):
             print("MISMATCH", i, i in failing_cases, json.dumps(public(cases[i]))[:600], json.dumps(results[i]["outs"])[:600])
-    if unexplained:
+    tie = tree.broken_for(PID)
+    if unexplained and not tie:
         i = unexplained[0]
         run.violation("model-impl-disagree",
                       "correspondence Dist.NumF.case_ok (Dist.Draw over PrimFloat with recorded libm tables) no longer matches "
@@ -1146,6 +1155,41 @@ def main(tier: str) -> int:
         run.violation("pow-oracle-not-converging",
                       f"{len(unresolved)} scenarios still miss ** table entries after {rounds} refinement rounds",
                       {"scenario": public(cases[i])}, found_input=False)
+    # ---- the regenerated model no longer equals the proved one: look harder for a concrete failing input
+    if tie and not run.violations:
+        rng2 = random.Random(run.seed * 7919 + 1414)
+        focus = [c for c in tie.get("classes", []) if c in CLASSES] or CLASSES
+        extra = []
+        for i in range(700 if tier == "quick" else 4000):
+            extra.append(gen_case(rng2, CLASSES.index(focus[i % len(focus)])))
+        tried = 0
+        try:
+            xres = run_impl(extra)
+        except Exception:  # noqa
+            xres = []
+        for c, r in zip(extra, xres):
+            tried += 1
+            f, _info = oracle(c, r)
+            f += pair_oracles(c, r, None)
+            fresh = [(sig, what, k) for sig, what, k in f if not any(kn.get("signature") == sig for kn in run._known)]
+            if fresh:
+                sig, what, k = fresh[0]
+                small = shrink(c, r, k, sig)
+                run.violation(sig, what, {"scenario": public(small), "original_scenario": public(c),
+                                          "found_by": "search after the translated model stopped agreeing with the proved one",
+                                          "how": "run harness/c14_impl.py (mode 'cases') on the scenario"})
+                break
+        run.cov["extra_cases_searched_after_broken_tie"] = tried
+    if "source_translation" in run.cov:
+        run.cov["source_translation"]["tie"] = ({"status": "broken", **{k: v for k, v in tie.items() if k != "failures"}}
+                                                if tie else {"status": "checked"})
+    if tie and not run.violations:
+        more = {"model_impl_mismatching_cases": len(mism), "extra_cases_searched": run.cov.get("extra_cases_searched_after_broken_tie")}
+        if unexplained:
+            i = unexplained[0]
+            more.update({"correspondence": "Dist.NumF.case_ok also fails on %d scenarios that violate no clause of the property" % len(unexplained),
+                         "scenario": public(cases[i]), "impl_outputs": results[i]["outs"]})
+        L.report_broken_tie(run, tree, "the support / domain / isolation oracle", more)
     if not proofs_ok and not run.violations:
         run.violation("proof-broken", "a C14 proof obligation no longer checks: " + getattr(run, "proof_log", "")[-800:],
                       {"theorems": run.cov.get("theorems")}, found_input=False)
